@@ -31,7 +31,19 @@ int tk_slot(const char *t)
     if (v < 0 || v >= NSLOT) cjv_fatal("bad slot '%s'", t);
     return (int)v;
 }
-cJSON *tk_item(const char *t) { int s = tk_slot(t); return s < 0 ? NULL : slot[s]; }
+cJSON *tk_item(const char *t)
+{
+    /* a handle the model believes to be alive must be a live block of the allocator: if the library
+     * released it behind the model's back, say so instead of letting the driver touch freed memory */
+    int s = tk_slot(t);
+    cJSON *p = s < 0 ? NULL : slot[s];
+    if (p != NULL && led_lookup(p, NULL, NULL) != 1) {
+        cjv_violation("wf/not-live", "handle: the item in slot %d (%p) is no longer a live block of the allocator (released by an earlier call)", s, (void *)p);
+        slot[s] = NULL;
+        return NULL;
+    }
+    return p;
+}
 long tk_int(const char *t) { return strtol(t, NULL, 10); }
 double tk_dbl(const char *t)
 {
